@@ -44,3 +44,50 @@ package openapiv3
 //@   loop 3 modifies elems(string)
 //@   loop 4 modifies elems(string)
 //@   loop 5 modifies elems(string)
+
+// ---- parameters (C14) ------------------------------------------------------------------
+// "The same parameters with the same location and required flag": the parameter documented for a path or
+// query attribute carries the wire name, is located in the path exactly when its name is one of the path's
+// wildcards, and is required exactly when it is a path parameter or the walker reports it required
+// (codegen.WalkMappedAttr, the walker the server's decoder data is built with, is proved in package codegen to
+// pass ma.IsRequired(name)). Headers and cookies: located as such, named by the wire name.
+//@ func paramFor
+//@   params att name in required rand
+//@   property C14
+//@   requires att != nil
+//@   unknown_calls_preserve Parameter.Name, Parameter.In, Parameter.Required, Parameter.AllowEmptyValue
+//@   ensures* mirrors: result != nil && fresh(result) && result.Name == name && result.In == in && result.Required == required && result.AllowEmptyValue == (in != "path")
+//@   modifies all
+//@ func paramsFromPath$1
+//@   params n pn required at
+//@   opt captured private
+//@   locals in
+//@   property C14
+//@   requires at != nil
+//@   let out = captured(res)
+//@   let last = out[len(out) - 1]
+//@   ensures* appended: result == nil && len(out) == len(res) + 1 && last.Name == pn
+//@   ensures* path.parameter: forall i int :: 0 <= i && i < len(wildcards) && wildcards[i] == n ==> last.In == "path" && last.Required
+//@   ensures* query.parameter: (forall i int :: 0 <= i && i < len(wildcards) ==> wildcards[i] != n) ==> last.In == "query" && last.Required == required
+//@   ensures kept: forall k int :: 0 <= k && k < len(res) ==> out[k] == old(res[k])
+//@   loop 1 invariant scan: in == "query" && required == old(required) && (forall j int :: 0 <= j && j <= rangeindex ==> wildcards[j] != n)
+//@   modifies all
+//@ func paramsFromHeadersAndCookies$1
+//@   params name elem att
+//@   opt captured private
+//@   property C14
+//@   requires att != nil && endpoint != nil
+//@   let out = captured(params)
+//@   ensures* appended: result == nil && (len(out) == len(params) + 1 || len(out) == len(params)) && (len(out) == len(params) + 1 ==> out[len(out) - 1].Name == elem && out[len(out) - 1].In == "header")
+//@   ensures* all.but.authorization: toLower(elem) != "authorization" ==> len(out) == len(params) + 1
+//@   ensures kept: forall k int :: 0 <= k && k < len(params) ==> out[k] == old(params[k])
+//@   modifies all
+//@ func paramsFromHeadersAndCookies$2
+//@   params name elem att
+//@   opt captured private
+//@   property C14
+//@   requires att != nil && endpoint != nil
+//@   let out = captured(params)
+//@   ensures* appended: result == nil && len(out) == len(params) + 1 && out[len(out) - 1].Name == elem && out[len(out) - 1].In == "cookie"
+//@   ensures kept: forall k int :: 0 <= k && k < len(params) ==> out[k] == old(params[k])
+//@   modifies all
